@@ -5,6 +5,9 @@
 #include <format>
 #endif
 
+#include <limits>
+#include <optional>
+
 #include "ccl/lang/TextEnvironment.h"
 #include "ccl/lang/LexicalTerm.h"
 
@@ -59,6 +62,26 @@ namespace {
     }
     return Morphology{ tags };
   }
+}
+
+//! Parse collaboration offset. Pre: IsInteger(text)
+[[nodiscard]] std::optional<int16_t> ParseOffset(const std::string_view text) noexcept {
+  constexpr int32_t limit = std::numeric_limits<int16_t>::max();
+  const bool isNegative = text.front() == '-';
+  int32_t value = 0;
+  for (const auto symbol : text.substr(isNegative ? 1U : 0U)) {
+    value = value * 10 + (symbol - '0'); // NOLINT: ignore magic number
+    if (value > limit + 1) {
+      return std::nullopt;
+    }
+  }
+  if (isNegative) {
+    value = -value;
+  }
+  if (value < std::numeric_limits<int16_t>::min() || value > limit) {
+    return std::nullopt;
+  }
+  return static_cast<int16_t>(value);
 }
 
 [[nodiscard]] UTF8Iterator ReferenceStart(const std::string_view refStr, const StrPos start) noexcept {
@@ -129,9 +152,12 @@ Reference Reference::Parse(std::string_view refStr) {
     return Reference{ EntityRef{ std::string{ tokens.at(EntityRef::TR_ENTITY) }, std::move(form) } };
   }
   case ReferenceType::collaboration: {
+    const auto offset = ParseOffset(tokens.at(CollaborationRef::CR_OFFSET));
+    if (!offset.has_value()) {
+      return {};
+    }
     return Reference{ 
-      CollaborationRef{ std::string{ tokens.at(CollaborationRef::CR_TEXT) },
-      static_cast<int16_t>(stoi(std::string{ tokens.at(CollaborationRef::CR_OFFSET) })) } 
+      CollaborationRef{ std::string{ tokens.at(CollaborationRef::CR_TEXT) }, offset.value() } 
     };
   }
   default:
